@@ -282,9 +282,14 @@ static void run_cal(cs_scenario *sc, bool model, int gk, double snf,
 	    o->rc = -6;
 	    goto out;
 	}
+	/* both vectors NULL: there is nothing to count, the count given is
+	   0 in every other noise-grid kind and 1 in the others */
 	if (clear_model &&
-		vnacal_new_set_m_error(vnp, NULL, 1, NULL, NULL) != 0) {
+		vnacal_new_set_m_error(vnp, NULL, (gk & 1) ? 0 : 1, NULL,
+		    NULL) != 0) {
 	    o->rc = -5;
+	    snprintf(o->msg, sizeof(o->msg), "%.150s",
+		    elog.count ? elog.msg[0] : "");
 	    goto out;
 	}
     }
@@ -408,6 +413,13 @@ static void run_det(int tier, long idx, vf_result *r)
     }
     /* (3) clearing the model restores the unweighted behaviour exactly */
     run_cal(&sc, true, gk, snf, str, true, 0, &cleared, r);
+    if (cleared.rc == -5) {
+	snprintf(sig, sizeof(sig), "clear-refused:%s", tname);
+	vf_fail(r, sig, "vnacal_new_set_m_error(vnp, NULL, %d, NULL, NULL) "
+		"is refused, the model stays enabled: %s", (gk & 1) ? 0 : 1,
+		cleared.msg);
+	goto done;
+    }
     if (cleared.rc != 0 || !cleared.applied ||
 	    memcmp(cleared.S, plain.S, sizeof(plain.S[0]) * (size_t)nf) != 0) {
 	snprintf(sig, sizeof(sig), "clear-differs:%s", tname);
